@@ -233,7 +233,7 @@ func c02Run(c c02Case, st *vlib.Stats) string {
 		flushedSomething := false
 		for i, s := range seg.Stmts {
 			if s.Fails {
-				if kind, _ := m.Apply(s); kind == model.OK {
+				if kind, merr := m.Apply(s); kind == model.OK && merr == nil {
 					return fmt.Sprintf("harness: the statement meant to fail is valid in the model (segment %d statement %d)", si, i)
 				}
 				err := eng.ExecStmt(s)
